@@ -11,8 +11,8 @@ import (
 	_ "verifmc/checks/c15"
 	_ "verifmc/checks/c16"
 	_ "verifmc/checks/c18"
+	_ "verifmc/checks/c20"
 	_ "verifmc/checks/lease"
 	_ "verifmc/checks/optplug"
 	_ "verifmc/checks/pd"
-	_ "verifmc/checks/c20"
 )
